@@ -11,6 +11,7 @@ COMMON_TRUSTED = [
 
 # (file under coq/Gen, acra-vh arguments that print it): regenerated from /repo on every run
 GENERATORS = [
+    ("MaskConsts.v", ["maskconsts"]),
     ("WireConsts.v", ["wireconsts"]),
     ("Consts.v", ["consts"]),
 ]
@@ -21,6 +22,47 @@ def dom(name, run_mod, nq, nt, model=True):
 
 
 PROPS = {
+    "C15": {
+        "domains": [
+            {
+                "name": "c15",
+                "run_vo": "Model/RunPoison.vo",
+                "n_quick": 16,
+                "n_thorough": 120,
+                "model": True
+            }
+        ],
+        "trusted": [
+            "modelled, not verified: what the callbacks themselves do (poison.StopCallback exits, ExecuteScriptCallback starts a script): a callback is the event `Callback` plus an optional error",
+            "delivery = the return of OnColumn / of the translator operation (the wire encoding after it is C12/C13)"
+        ],
+        "assumptions": [
+            "Correct C for the poison-record creation theorems; detection/no-False-alarm theorems hold for any C",
+            "no_False_alarm is stated on the decrypt function's results (no unforgeability assumed) and as a reduction to an explicit opening witness",
+            "prefix in front of the record is quiet (C01) in the detection theorems"
+        ]
+    },
+    "C11": {
+        "domains": [
+            {
+                "name": "c11",
+                "run_vo": "Model/RunMasking.vo",
+                "n_quick": 40,
+                "n_thorough": 60,
+                "model": True
+            }
+        ],
+        "trusted": [
+            "modelled, not verified: how the proxies put the column's setting into the context and the OldContainerDetectorWrapper in front of the detector (oracle-only run in the harness); the encryptor chain around the masking encryptor (C19)",
+            "the model is the FIXED masking.Processor (patches/fix_masking_forged_header.diff applied to /repo)"
+        ],
+        "assumptions": [
+            "Correct C only where the C01 round trip is invoked (C11_protects_*); read-side theorems hold for any C",
+            "window_clear: no complete well-formed envelope at a tag position inside the clear window (implied by C01's quiet; always True for right windows <= 12 bytes)",
+            "pattern <> envelope-as-seen (always True for patterns <= 12 bytes)",
+            "non-owner = the decrypt step returns an error or the unchanged container (cannot_open)"
+        ]
+    },
     "C04": {
         "domains": [
             {
